@@ -62,7 +62,7 @@ P = {
  "C17": ("handleRetransmitTimeout decision table and constants (doubling, 60 s cap, backoff disable), interval writers enumerated, reset store control-dependent only on non-retransmitted input, cookie flights never timer-sent.",
          "Actual intervals and datagram counts.",
          "decision-table extraction + who-may-write + control dependence"),
- "C18": ("Marshal/Unmarshal field symmetry per codec type, registries cover every message/content/extension implementer, decoded lengths that guard must also bound the following slice, datagram unpackers advance by exactly the declared length.",
+ "C18": ("Marshal/Unmarshal field symmetry per codec type, registries cover every message/content/extension implementer, decoded lengths that guard must also bound the following slice, datagram unpackers advance by exactly the declared length; decoder loops that run to the end of their buffer consume exactly a declared length.",
          "decode(encode(v)) == v and canonical fixed points over values.",
          "field read/write sets + registry exhaustiveness + length-use lint on SSA"),
  "C19": ("Every serializedState field written by serialize and read by deserialize, every State field produced by generateState consumed by generateInternalState, sequence counter carried from and back to the same epoch index, DTLS 1.3 refused at all four entry points.",
